@@ -89,6 +89,16 @@ def _run_one(args):
         prog = Program(repo)
         p2 = apply_variant(prog, v)
         if p2 is None:
+            # an anchor that is absent although the function is still the reference function means the variant itself is stale
+            try:
+                from .normalise import alpha_hash, ref_table
+
+                ref = ref_table().get(v.module, {}).get(v.function)
+                mod = prog.module(v.module)
+                if ref and v.function and mod.has_func(v.function) and alpha_hash(mod.func(v.function))[0] == ref["hash"]:
+                    return (v.name, kind, "STALE", "anchor text not present although the function is unchanged: the variant must be rewritten")
+            except Exception:  # noqa: BLE001
+                pass
             return (v.name, kind, "skipped", "anchor text not present")
         try:
             viol, und = _signature(cls, p2, "quick")
@@ -140,6 +150,7 @@ def sweep(cls: type[Check], tier: str, repo: Path | None):
         "fired": sum(1 for r in results if r[2] == "fired"),
         "silent_ok": sum(1 for r in results if r[2] == "silent"),
         "skipped": sum(1 for r in results if r[2] == "skipped"),
+        "stale": [r[0] for r in results if r[2] == "STALE"],
         "refused_as_analysis_error": sum(1 for r in results if r[2] == "analysis-error"),
         "missed": [r[0] for r in results if r[2] == "MISSED"],
         "false_alarms": [r[0] for r in results if r[2] == "FALSE-ALARM"],
@@ -148,6 +159,9 @@ def sweep(cls: type[Check], tier: str, repo: Path | None):
     for r in results:
         if r[2] == "analysis-error" and "edit does not parse" in str(r[3]):
             print(f"ANALYSIS-ERROR property={cls.pid} selftest variant '{r[0]}' is broken: {r[3]}")
+            rc = 2
+        elif r[2] == "STALE":
+            print(f"ANALYSIS-ERROR property={cls.pid} selftest variant '{r[0]}' is stale: {r[3]}")
             rc = 2
         elif r[2] in ("MISSED", "FALSE-ALARM"):
             print(f"ANALYSIS-ERROR property={cls.pid} selftest variant '{r[0]}' ({r[1]}): {r[2]} {r[3]}")
